@@ -70,6 +70,14 @@ CHECKS = {
    "bounded-exhaustive enumeration of short sequences over {a,c,g,t,n} (and mixed case) for k=4 with all 256 words queried and every sub-range iterated, of sequences around k for k=5..10, and of all word values for the encoding helpers, against brute-force windows and string operations",
    "k=4: all sequences of length 5..7 (thorough 8) over 5 letters plus case variants, every word, every sub-range; k=5..7: all sequences of length k+1..k+2 over {a,t,n}; k=8..10: all sequences of length k+1 over {a,n} (thorough {a,t,n}); every word value for k=2..6 (thorough 8) for Format/KmerOf/GCof/ComplementOf.",
    "Positions compared as sets; ranges shorter than k must not call back; k=1 is outside the supported range (ComplementOf(1,.) does not terminate); long sequences are not covered."),
+ "C08": (E3, "exploration", "DESIGN.md §3 C08",
+   "bounded-exhaustive enumeration of sequence pairs x scoring matrices x gap-open values for the six aligners; the score of the returned path, recomputed from the letters, is compared with independent reference dynamic programmes (global, local, fitted; affine with and without gap-to-gap transitions)",
+   "Alphabet '-ac': all ordered pairs of sequences of length 1..3 (thorough 4), all 1296 matrices with substitution entries in {-1,0,1} and gap entries in {0,-1} (thorough: a slice of the {-2..2}/{0,-1,-2} grid), gap-open {0,-1,-2}; alphabet '-acg' on short sequences; about 3.8 million alignments in the quick tier.",
+   "Small scope (ties are everywhere in it, long sequences are not covered); two modelling limits of the affine aligners are recorded as known findings (no insertion<->deletion transition; FittedAffine only ends on an aligned pair) and told apart from every other failure by the reference DPs."),
+ "C09": (E3, "exploration", "DESIGN.md §3 C09",
+   "the same enumeration as C08 with a structural oracle on every returned description (abutting blocks / one-sided gaps / empty pairs, spans, per-run reported score = recomputed score with gap-open once per run, Letters = QLetters, Format rows) plus an enumerated family of ill-typed calls that must return errors",
+   "Every alignment of C08's space; ill-typed calls: an illegal letter at every position of either sequence, distinct alphabet objects, mixed Letters/QLetters, nil alphabet, alphabet without leading gap, ragged, non-square, undersized and empty matrices, for each of the six aligners.",
+   "Reported scores are compared per maximal run of equal-kind pairs (a gap run may be split over consecutive pairs)."),
 }
 PENDING = {}  # id -> reason, for properties not (yet) claimed
 
